@@ -64,6 +64,23 @@ Theorem C03_full_first_horizon : forall (A : Type) (A_eq_dec : forall a b : A, {
   (forall p, In p roots -> fst p <= 0) -> F.run_list A A_eq_dec fuel 0 roots (F.init A) = Some s' -> F.Inv A A_eq_dec 0 nil s'.
 Proof. exact (fun A D => F.first_horizon_inv A D boolean_clauses_spec tel_clauses_spec make_equal_spec). Qed.
 
+(* definitional extension for the FULL operator set: after every call of Theory.translate both invariants hold again, the canonical
+   assignment (every auxiliary atom gets the LTLf value of the entry that allocated it) violates no emitted constraint, every other such
+   assignment coincides with it on all allocated atoms, and every cached literal has the LTLf value of its formula *)
+Theorem C03_full_definitional : forall (A : Type) (A_eq_dec : forall a b : A, {a = b} + {a <> b}) (fuel h : nat) (s : F.st A)
+  (roots : list (nat * F.bf A)) (s' : F.st A),
+  F.Inv A A_eq_dec h nil s -> F.Gw A A_eq_dec s -> (forall p, In p (F.pending A s) -> fst p <= S h) -> (forall p, In p roots -> fst p <= S h) ->
+  F.theory_translate A A_eq_dec fuel (S h) roots s = Some s' ->
+  F.Inv A A_eq_dec (S h) nil s' /\ F.Gw A A_eq_dec s' /\
+  forall T : F.trace A,
+    (F.ok_cls A T (F.vstar A (S h) T s') s' /\ F.ok_ext A A_eq_dec (F.vstar A (S h) T s') s') /\
+    forall v : nat -> bool, F.ok_cls A T v s' -> F.ok_ext A A_eq_dec v s' ->
+      (forall z, 0 < z < F.nxt A s' -> v z = F.vstar A (S h) T s' z) /\
+      (forall f k l, F.cached A A_eq_dec s' f k l -> F.ev A T v l = F.lsat A (S h) T f k).
+Proof. exact (fun A D => F.definitional_extension_full A D boolean_clauses_spec tel_clauses_spec make_equal_spec). Qed.
+Theorem C03_full_initial_state : forall (A : Type) (A_eq_dec : forall a b : A, {a = b} + {a <> b}) (h : nat), F.Inv A A_eq_dec h nil (F.init A) /\ F.Gw A A_eq_dec (F.init A).
+Proof. intros A D h. split; [apply F.Inv_init|apply F.Gw_init]. Qed.
+
 (* Semantic layer for the FULL body operator set: any valuation that satisfies the per-horizon definitional equations
    (the equations the Tseitin clauses of each constructor encode) is the LTLf value. *)
 Theorem C03_equations_determine_LTLf : forall (A : Type) (T : nat -> A -> bool) (h : nat) (v : LTLUnique.f A -> nat -> bool),
@@ -131,3 +148,5 @@ Print Assumptions C03_full_translate_keeps_invariant.
 Print Assumptions C03_full_value_is_LTLf.
 Print Assumptions C03_full_step.
 Print Assumptions C03_full_first_horizon.
+Print Assumptions C03_full_definitional.
+Print Assumptions C03_full_initial_state.
